@@ -225,8 +225,19 @@ pub fn append_only_violations(
     from: usize,
     ever_ids: &mut std::collections::BTreeSet<usize>,
 ) -> Vec<String> {
+    append_only_violations_in(log, from, usize::MAX, ever_ids)
+}
+
+/// The same over `entries[from..to]`.
+pub fn append_only_violations_in(
+    log: &IoLog,
+    from: usize,
+    to: usize,
+    ever_ids: &mut std::collections::BTreeSet<usize>,
+) -> Vec<String> {
     let mut out = Vec::new();
-    for e in &log.entries[from.min(log.entries.len())..] {
+    let to = to.min(log.entries.len());
+    for e in &log.entries[from.min(to)..to] {
         match e {
             Entry::Io { ev, faulted, dest_existed, .. } => {
                 let blob = is_blob(&ev.path);
